@@ -116,11 +116,49 @@ def coq_make(targets=None):
     return sh(cmd, cwd=COQ)
 
 
-def forbidden_scan():
-    """Scan all .v files for forbidden declarations; also flags Variable/Hypothesis outside sections."""
+def prop_deps(prop):
+    """direct .vo dependencies of Properties_<prop>.v (make resolves the transitive ones)."""
+    rc, out = sh(["coqdep", "-Q", ".", "SqfsV", "Properties_%s.v" % prop], cwd=COQ)
+    deps = []
+    for line in out.split("\n"):
+        if line.startswith("Properties_%s.vo" % prop) and ":" in line:
+            for w in line.split(":", 1)[1].split():
+                if w.endswith(".vo") and not w.startswith("Properties_"):
+                    deps.append(w)
+    return deps
+
+
+def prop_closure(prop):
+    """all .v files (relative to coq/) that Properties_<prop>.v transitively depends on, itself included."""
+    files = [os.path.relpath(p, COQ) for p in glob.glob(os.path.join(COQ, "**", "*.v"), recursive=True)]
+    rc, out = sh(["coqdep", "-Q", ".", "SqfsV"] + files, cwd=COQ)
+    graph = {}
+    for line in out.split("\n"):
+        if ":" not in line:
+            continue
+        lhs, rhs = line.split(":", 1)
+        tgt = [w for w in lhs.split() if w.endswith(".vo")]
+        if not tgt:
+            continue
+        graph[tgt[0][:-1]] = [w[:-1] for w in rhs.split() if w.endswith(".vo")]
+    todo = ["Properties_%s.v" % prop]
+    seen = set()
+    while todo:
+        f = todo.pop()
+        if f in seen:
+            continue
+        seen.add(f)
+        todo += graph.get(f, [])
+    return sorted(seen)
+
+
+def forbidden_scan(only=None):
+    """Scan .v files for forbidden declarations; also flags Variable/Hypothesis outside sections."""
     hits = []
     for p in sorted(glob.glob(os.path.join(COQ, "**", "*.v"), recursive=True)):
         rel = os.path.relpath(p, COQ)
+        if only is not None and rel not in only:
+            continue
         txt = open(p).read()
         # strip comments (nested)
         out = []
@@ -330,12 +368,16 @@ def prepare_proofs(ctx):
             ctx.proof_broken.append("Gen/Constants.v: " + err)
         if changed:
             ctx.log("Constants.v changed -> rebuilding dependent .vo")
-        rc, log = coq_make()
+        write_coqproject()
+        deps = prop_deps(ctx.prop)
+        rc, log = coq_make(deps) if deps else (0, "")
         if rc != 0:
-            ctx.notes.append("coq make reported errors (other properties may be affected): " + log[-800:])
+            ctx.notes.append("coq make reported errors: " + log[-1500:])
         res = check_properties(ctx.prop)
-    hits = forbidden_scan()
+    closure = prop_closure(ctx.prop)
+    hits = forbidden_scan(only=set(closure))
     res["forbidden"] = hits
+    res["files"] = closure
     ctx.proof = res
     if hits:
         ctx.proof_broken.append("forbidden declarations: " + "; ".join(hits[:5]))
@@ -343,7 +385,7 @@ def prepare_proofs(ctx):
         ctx.proof_broken.append("theorem %s in %s no longer checks: %s" % (res["failed"], res["file"], res["log"][-1500:]))
     ctx.coverage.update(obligations=res["obligations"], discharged=res["discharged"],
                         checker_cmd="cd coq && make -k -j16 && coqc -Q . SqfsV %s (Print Assumptions after every theorem)" % res["file"],
-                        theorems=res["theorems"], examples=res["examples"],
+                        theorems=res["theorems"], examples=res["examples"], coq_files=res["files"],
                         print_assumptions=dict(closed_under_global_context=res["closed"], axioms=res["axioms"]))
     return res
 
